@@ -81,6 +81,9 @@ impl ParserInstance {
     }
 }
 
+/// How deeply blocks, parenthesised expressions and argument lists may be nested (the parser recurses once per level)
+pub const MAX_NESTING_DEPTH: usize = 64;
+
 /// The shared state of all parsers
 pub struct State {
     /// The parsing source
@@ -97,6 +100,9 @@ pub struct State {
 
     /// Current anonymous scope index
     anonymous_scope_index: usize,
+
+    /// How many blocks, parenthesised expressions and argument lists enclose the text that is being parsed
+    nesting_depth: usize,
 }
 
 impl State {
@@ -110,6 +116,7 @@ impl State {
             errors: Diagnostics::default(),
             ignore_next_error: false,
             anonymous_scope_index: 0,
+            nesting_depth: 0,
         }
     }
 
@@ -134,6 +141,16 @@ impl State {
             log::trace!("Pushing error: {:?}", error);
             self.errors.push(error);
         }
+    }
+
+    /// Enters one more level of nesting; `false` when that level is too deep (the level is entered anyway)
+    pub fn enter_nesting(&mut self) -> bool {
+        self.nesting_depth += 1;
+        self.nesting_depth <= MAX_NESTING_DEPTH
+    }
+
+    pub fn leave_nesting(&mut self) {
+        self.nesting_depth -= 1;
     }
 
     pub fn new_anonymous_scope(&mut self) -> Identifier {
